@@ -1,7 +1,8 @@
 /-!
 # Model of `pkg/obifp` (Uint64 / Uint128 / Uint256)
 
-Hand transcription of `uint64.go`, `uint128.go`, `uint256.go`.  Limbs are `Nat`s below `W = 2^64`
+Hand transcription of `uint64.go`, `uint128.go`, `uint256.go` (every exported method) and of the generic
+constructors of `unint.go`.  Limbs are `Nat`s below `W = 2^64`
 (well-formedness is the predicate `WF`); `math/bits` primitives are modelled by their documented
 arithmetic meaning (trusted base).  `log.Panicf` is the outcome `.error ()`.  `log.Warnf` has no
 effect on the returned value and is not modelled.
